@@ -517,6 +517,12 @@ pub fn build_common(rng: &mut Rng, ctx: &mut Ctx, host: &str) -> (RequestBuilder
         }
         m.query_pairs.push((k, v));
     }
+    // a fragment is never part of the request target, whatever is appended to the query later
+    if rng.chance(1, 4) {
+        let frag: &str = *rng.pick(&["#frag", "#", "#a/b?c=d", "#%20x"]);
+        url.push_str(frag);
+        ctx.count("urls_with_fragment", 1);
+    }
     let mut rb = RequestBuilder::new(Method::from_bytes(method.as_bytes()).unwrap(), &url);
     // params
     for _ in 0..rng.range(0, 3) {
